@@ -10,8 +10,11 @@ import traceback
 from concurrent.futures import ProcessPoolExecutor
 
 VERIF = os.path.dirname(os.path.dirname(os.path.abspath(__file__)))
-EVID = os.path.join(VERIF, "evidence")
-REPLAYS = os.path.join(VERIF, "replays")
+# VERIF_OUT (used only when evaluating seeded changes) redirects evidence / replays so that such runs never
+# overwrite the evidence of the real tree
+_OUT = os.environ.get("VERIF_OUT") or VERIF
+EVID = os.path.join(_OUT, "evidence")
+REPLAYS = os.path.join(_OUT, "replays")
 KF_PATH = os.path.join(VERIF, "known_findings.json")
 
 
